@@ -193,6 +193,16 @@ def fsqrt(eng, st, a):
         if isqrt(n) ** 2 == n and isqrt(d) ** 2 == d:
             return Fraction(isqrt(n), isqrt(d))
         a = to_z3(a)
+    # sqrt(x * x) = |x| exactly (keeps a step whose discriminant is a perfect square linear)
+    sa = z3.simplify(a, som=False) if is_z3(a) else a
+    if is_z3(sa):
+        base = None
+        if z3.is_app_of(sa, z3.Z3_OP_POWER) and z3.is_rational_value(sa.arg(1)) and sa.arg(1).as_fraction() == 2:
+            base = sa.arg(0)
+        elif z3.is_mul(sa) and sa.num_args() == 2 and sa.arg(0).eq(sa.arg(1)):
+            base = sa.arg(0)
+        if base is not None:
+            return z3.If(base >= 0, base, -base)
     r = eng.fresh("sqrt")
     st.events = st.events + (("sqrt_nonneg", a >= 0, "sqrt argument"),)
     st.define(z3.And(r >= 0, r * r == a))
